@@ -4,7 +4,8 @@
     BINARY collation = bytewise comparison of TEXT); the per-part WHERE clauses
     are modelled by [Query.sql_value_cond] / [Query.part_selects] and tied to
     the implementation by the correspondence run only. *)
-From Perf Require Import Base.Bytes Model.Words Model.Query Proofs.Words Proofs.Query.
+From Perf Require Import Base.Bytes Model.Words Model.Query Model.StoreFmt Proofs.Words Proofs.Query
+     Proofs.StoreFmt Proofs.QueryDb.
 
 (** several terms on one key, merged left to right as parseQuery does, mean
     their conjunction — on every non-empty label value (None = io.EOF = never) *)
@@ -74,6 +75,119 @@ Print Assumptions C19_splitwords_add_to_query.
 Theorem C19_splitwords_no_empty_word : forall q, Forall (fun w => w <> []) (split_words q).
 Proof. exact splitwords_no_empty_word. Qed.
 Print Assumptions C19_splitwords_no_empty_word.
+
+(** ** printer / reader round trip (stretch) *)
+
+(** Printer, then Reader, on ANY sequence of well-formed results gives the same
+    results: labels as maps, name labels, content lines verbatim, each once, in
+    order. [wf_result]: labels sorted with distinct keys, every key one the key
+    scanner accepts ([key_ok]), every value non-empty without leading blank, no
+    LF and — the exclusion the known finding C19_trailing_cr_lost forces — no
+    value or line ending in CR; the line is a benchmark line with a non-empty
+    name whose name labels the result carries. *)
+Theorem C19_printer_reader_roundtrip : forall rs,
+  Forall wf_result rs -> Forall2 res_same (read_plain (print_all [] rs)) rs.
+Proof. exact printer_reader_roundtrip. Qed.
+Print Assumptions C19_printer_reader_roundtrip.
+
+(** the Content blob of a coalesced record (first result printed afresh, then
+    the bare lines InsertRecord appends) is what one printer writes for the group *)
+Theorem C19_coalesced_content : forall r rs,
+  ksorted (r_labels r) -> (forall k v, In (k, v) (r_labels r) -> v <> []) ->
+  Forall (fun x => r_labels x = r_labels r) rs ->
+  print_all [] (r :: rs) = print_one [] r ++ concat (map (fun x => r_content x ++ [c_lf]) rs).
+Proof. exact coalesced_content. Qed.
+Print Assumptions C19_coalesced_content.
+
+(** composition: stored records -> db.Query (fresh reader per record) -> the
+    /search handler's single printer -> the client's reader: the client gets
+    the stored results, each once, in order, labels and lines intact *)
+Theorem C19_stored_to_client : forall groups : list (list result),
+  Forall (Forall wf_result) groups ->
+  let served := flat_map (fun g => read_plain (print_all [] g)) groups in
+  Forall2 res_same (read_plain (print_all [] served)) (concat groups).
+Proof. exact stored_to_client. Qed.
+Print Assumptions C19_stored_to_client.
+
+(** ** queries over the stored state (stretch) *)
+
+(** parseQuery hands SQL one part per key, keys sorted *)
+Theorem C19_parse_query_sorted_keys : forall q ps,
+  parse_query q = QOk ps -> keys_sorted ps /\ NoDup (keys_of ps).
+Proof. exact parse_query_sorted_keys. Qed.
+Print Assumptions C19_parse_query_sorted_keys.
+
+(** the merged parts select a record iff EVERY term of the query text holds of
+    its labels (any number of terms, any keys, redundant or not) *)
+Theorem C19_query_means_terms : forall q ps,
+  parse_query q = QOk ps ->
+  exists ts, query_terms q = Some ts
+    /\ forall r, wf_qrec r -> query_selects ps r = terms_hold ts (q_labels r).
+Proof. exact query_means_terms. Qed.
+Print Assumptions C19_query_means_terms.
+
+(** a query returns exactly the results of the stored records satisfying every
+    term, each record once. [query_selects] is the assumed meaning of the
+    generated SQL (SQLite trusted). *)
+Theorem C19_query_returns_exactly : forall d q ps,
+  wf_db d -> parse_query q = QOk ps ->
+  exists ts, query_terms q = Some ts
+    /\ db_query d q = inl (flat_map (fun ir => rec_results (snd ir))
+                                    (filter (rec_satisfies ts) (db_records d))).
+Proof. exact query_returns_exactly. Qed.
+Print Assumptions C19_query_returns_exactly.
+
+(** a contradictory query (io.EOF): empty result, empty listing (not an error),
+    and indeed no label map satisfies its terms *)
+Theorem C19_listing_contradiction_is_empty : forall d q,
+  parse_query q = QEof ->
+  db_query d q = inl [] /\ list_uploads d q 0 = inl []
+  /\ forall ts, query_terms q = Some ts -> forall L, wf_map L -> terms_hold ts L = false.
+Proof. exact query_contradiction_is_empty. Qed.
+Print Assumptions C19_listing_contradiction_is_empty.
+
+(** the listing counts, per upload, the stored (coalesced) records satisfying
+    every term; uploads without one are hidden; newest first; limited *)
+Theorem C19_listing_counts_matching_records : forall d q ps limit,
+  wf_db d -> parse_query q = QOk ps ->
+  exists ts, query_terms q = Some ts
+    /\ list_uploads d q limit
+       = inl (take_limit limit (filter (fun ic => negb (snd ic =? 0)%N) (map (upload_count ts) (rev d)))).
+Proof. exact listing_counts_matching_records. Qed.
+Print Assumptions C19_listing_counts_matching_records.
+
+Theorem C19_listing_newest_first_limited : forall d ps limit,
+  let l := list_uploads_parts d ps limit in
+  (exists r, filter (fun ic => negb (snd ic =? 0)%N) (map (part_count ps) (rev d)) = l ++ r)
+  /\ ((0 < limit)%Z -> (Z.of_nat (length l) <= limit)%Z)
+  /\ Forall (fun ic => snd ic <> 0%N) l.
+Proof. exact listing_newest_first_limited. Qed.
+Print Assumptions C19_listing_newest_first_limited.
+
+(** non-vacuity of the well-formedness hypotheses *)
+Example C19_example_wf :
+  let r := mkResult [(bs "goos", bs "linux")] (name_labels (bs "Foo-8")) 0 (bs "BenchmarkFoo-8 1 2 ns/op") in
+  wf_result r
+  /\ read_plain (print_all [] [r; r]) = [mkResult (r_labels r) (r_namelabels r) 2 (r_content r);
+                                         mkResult (r_labels r) (r_namelabels r) 3 (r_content r)]
+  /\ wf_qrec (mkQrec (bs "20260930.1") [(bs "goos", bs "linux"); (bs "upload", bs "20260930.1")]).
+Proof.
+  cbv zeta. split; [|split].
+  - split; [|split; [|split]].
+    + split; [split; [intros k v [] | exact I]|].
+      intros k v [H|[]]. inversion H; subst. split.
+      * split; [cbn; intuition discriminate|]. intros rest. destruct rest; reflexivity.
+      * split; [discriminate|]. split; [intros c r0 [= <- _]; reflexivity|].
+        split; [cbn; intuition discriminate|].
+        intros p E. apply (f_equal (@rev byte)) in E. rewrite rev_app_distr in E. cbn in E. discriminate E.
+    + split; [cbn; intuition discriminate|].
+      intros p E. apply (f_equal (@rev byte)) in E. rewrite rev_app_distr in E. cbn in E. discriminate E.
+    + reflexivity.
+    + exists (bs "Foo-8"). repeat split. discriminate.
+  - reflexivity.
+  - split; [|reflexivity]. intros k v H. apply lookup_Some_In in H.
+    destruct H as [H|[H|[]]]; inversion H; subst; intros E; vm_compute in E; discriminate E.
+Qed.
 
 (** non-vacuity: concrete instances *)
 Example C19_example_merge :
